@@ -26,14 +26,91 @@ A(Item(LIC, "enum", "ErrorCode", mod="license", strip_derive=["TryFromPrimitive"
 A(Item(LIC, "enum", "StateTransition", mod="license", strip_derive=["TryFromPrimitive"], try_from="u32"))
 def LF(name, **kw):
     A(Fn(LIC, name, mod="license", **kw))
-LF("preamble", ret="c", props=["C05"], ensures=shape_clauses(LIC, "preamble", res="c"))
-LF("license_binary_blob", ret="c", props=["C05"], ensures=shape_clauses(LIC, "license_binary_blob", res="c"))
-LF("licensing_error_message", ret="c", props=["C05"], ensures=shape_clauses(LIC, "licensing_error_message", res="c"))
+A(Raw(r"""
+/// value of the field named `k` (what `component[k]` denotes)
+pub open spec fn field_of(f: Seq<(Seq<char>, MV)>, k: Seq<char>) -> MV { f[first_key(f, k)].1 }
+/// layout of the licensing error message (MS-RDPBCGR 2.2.1.12.1.3 LICENSE_ERROR_MESSAGE): dwErrorCode, dwStateTransition, bbErrorInfo
+pub open spec fn is_error_message(f: Seq<(Seq<char>, MV)>) -> bool {
+    f.len() == 3 && f[0].0 == "dwErrorCode"@ && f[0].1 is U32 && f[1].0 == "dwStateTransition"@ && f[1].1 is U32 && f[2].0 == "blob"@
+}
+/// layout of the licensing preamble (MS-RDPBCGR 2.2.1.12.1.1 LICENSE_PREAMBLE) followed by the message body
+pub open spec fn is_preamble(f: Seq<(Seq<char>, MV)>) -> bool {
+    f.len() == 4 && f[0].0 == "bMsgtype"@ && f[0].1 is U8 && f[1].0 == "flag"@ && f[2].0 == "wMsgSize"@ && f[3].0 == "message"@ && f[3].1 is Bytes
+}
+""", mod="license", name="license_specs"))
+# `ErrorCode::try_from(..)? == ErrorCode::StatusValidClient` calls the derived PartialEq: Verus needs its meaning. For a field-less enum
+# #[derive(PartialEq)] is equality of the variants (same treatment as PDUType / PDUType2 in specs/session_readers.py)
+A(Raw(r"""
+impl vstd::std_specs::cmp::PartialEqSpecImpl for ErrorCode {
+    open spec fn obeys_eq_spec() -> bool { true }
+    open spec fn eq_spec(&self, other: &Self) -> bool { *self == *other }
+}
+impl vstd::std_specs::cmp::PartialEqSpecImpl for StateTransition {
+    open spec fn obeys_eq_spec() -> bool { true }
+    open spec fn eq_spec(&self, other: &Self) -> bool { *self == *other }
+}
+""", mod="license", name="derived_eq", trusted="#[derive(PartialEq)] of the field-less enums ErrorCode / StateTransition compares the variants (std semantics of the derive)"))
+A(Raw(r"""
+/// Message::read keeps the layout of the licensing error message
+pub proof fn lemma_error_message_kept(a: MV, b: MV)
+    requires a is Comp, is_error_message(a->Comp_0), same_shape(a, b)
+    ensures b is Comp, is_error_message(b->Comp_0)
+{
+    reveal_with_fuel(same_shape, 2);
+    let f0 = a->Comp_0; let f1 = b->Comp_0;
+    assert(f0[0].0 == f1[0].0 && same_shape(f0[0].1, f1[0].1));
+    assert(f0[1].0 == f1[1].0 && same_shape(f0[1].1, f1[1].1));
+    assert(f0[2].0 == f1[2].0);
+}
+/// Message::read keeps the layout of the preamble
+pub proof fn lemma_preamble_kept(a: MV, b: MV)
+    requires a is Comp, is_preamble(a->Comp_0), same_shape(a, b)
+    ensures b is Comp, is_preamble(b->Comp_0)
+{
+    reveal_with_fuel(same_shape, 2);
+    let f0 = a->Comp_0; let f1 = b->Comp_0;
+    assert(f0[0].0 == f1[0].0 && same_shape(f0[0].1, f1[0].1));
+    assert(f0[1].0 == f1[1].0);
+    assert(f0[2].0 == f1[2].0);
+    assert(f0[3].0 == f1[3].0 && same_shape(f0[3].1, f1[3].1));
+}
+""", mod="license", name="license_lemmas"))
+LF("preamble", ret="c", props=["C05"],
+   closures={1: dict(params="size: &U16", ret="-> (r: MessageOption)",
+                     spec="ensures r.ov() == OV::Size(\"message\"@, if size.val() >= 4 { (size.val() as usize - 4) as usize } else { 0usize })")},
+   ensures=shape_clauses(LIC, "preamble", res="c") + [(None, "layout", "is_preamble(c.fields())")])
+LF("license_binary_blob", ret="c", props=["C05"],
+   closures={1: dict(params="size: &U16", ret="-> (r: MessageOption)", spec="ensures r.ov() == OV::Size(\"blobData\"@, size.val() as usize)")},
+   ensures=shape_clauses(LIC, "license_binary_blob", res="c"))
+LF("licensing_error_message", ret="c", props=["C05"], ensures=shape_clauses(LIC, "licensing_error_message", res="c") + [(None, "layout", "is_error_message(c.fields())")])
 LF("parse_payload", props=["C05", "C03"], keys=True,
    requires=["has_key(payload.fields(), \"bMsgtype\"@)", "has_key(payload.fields(), \"message\"@)"],
-   ensures=[("C03", "only-new-license-or-error-alert", "r is Ok ==> (r->Ok_0 is NewLicense || r->Ok_0 is ErrorAlert)")])
+   ensures=[("C03", "only-new-license-or-error-alert", "r is Ok ==> (r->Ok_0 is NewLicense || r->Ok_0 is ErrorAlert)"),
+            ("C03", "accepted-message-types", "r is Ok && field_of(payload.fields(), \"bMsgtype\"@) is U8 ==> field_of(payload.fields(), \"bMsgtype\"@)->U8_0 == (if r->Ok_0 is NewLicense { 0x03u8 } else { 0xFFu8 })"),
+            ("C05,C03", "error-alert-layout", "r is Ok && r->Ok_0 is ErrorAlert ==> is_error_message(r->Ok_0->ErrorAlert_0.fields())")],
+   hints=[(r"message\.read\(&mut stream\)\?;", 1, "let ghost m0 = message.mv();", "before"),
+          (r"message\.read\(&mut stream\)\?;", 1, "proof { lemma_error_message_kept(m0, message.mv()); }")])
 LF("client_connect", props=["C05", "C03"], keys=True,
-   ensures=[("C05", "monotone", "is_suffix(final(s).rest(), old(s).rest())")])
+   ensures=[("C05", "monotone", "is_suffix(final(s).rest(), old(s).rest())")],
+   hints=[(r"license_message\.read\(s\)\?;", 1, "let ghost m0 = license_message.mv();", "before"),
+          (r"license_message\.read\(s\)\?;", 1, """proof {
+        lemma_preamble_kept(m0, license_message.mv());
+        let f1 = license_message.fields();
+        assert(has_key(f1, "bMsgtype"@) && has_key(f1, "message"@));
+        assert(first_key(f1, "bMsgtype"@) == 0);
+    }"""),
+          (r"LicenseMessage::ErrorAlert\(blob\) => \{", 1, """proof {
+                let g = blob.fields();
+                assert(g[0].0 == "dwErrorCode"@ && g[1].0 == "dwStateTransition"@);
+                assert(has_key(g, "dwErrorCode"@) && has_key(g, "dwStateTransition"@));
+                assert(first_key(g, "dwErrorCode"@) == 0);
+                assert(first_key(g, "dwStateTransition"@) == 1);
+            }""")],
+   claims=[(r"Ok\(\(\)\)", 2, """proof {
+                    assert(license_message.fields()[0] == ("bMsgtype"@, MV::U8(0xFF)));
+                    assert(blob.fields()[0].0 == "dwErrorCode"@ && blob.fields()[0].1 is U32 && blob.fields()[0].1->U32_0 == 0x7);
+                    assert(blob.fields()[1].0 == "dwStateTransition"@ && blob.fields()[1].1 is U32 && blob.fields()[1].1->U32_0 == 0x2);
+                }""", "before", "C03", "accepted-only-valid-client-no-transition")])
 
 # ---------------- sec.rs
 A(Item(SEC, "enum", "SecurityFlag", mod="sec", add_derive="Copy, Clone"))
@@ -56,16 +133,98 @@ pub open spec fn client_info_pdu(info: Seq<u8>) -> Seq<u8> { le16(0x0040) + le16
 /// TS_EXTENDED_INFO_PACKET as this client sends it (AF_INET, empty address and dir, zero time zone, session id 0, no performance flags)
 pub open spec fn extended_info_len() -> int { 190 }
 """, mod="sec", name="sec_specs"))
+A(Raw(r"""
+/// one unfolding of Component serialization at a field that is not skipped and asks for no skip
+pub proof fn lemma_ser_field(f: Seq<(Seq<char>, MV)>, i: int)
+    requires 0 <= i < f.len(), !(opt_of(f[i].1) is Skip)
+    ensures ser_fields_from(f, i, Set::empty()) == ser(f[i].1) + ser_fields_from(f, i + 1, Set::empty())
+{
+    reveal_with_fuel(ser_fields_from, 2);
+}
+pub proof fn lemma_ser_fields_end(f: Seq<(Seq<char>, MV)>)
+    ensures ser_fields_from(f, f.len() as int, Set::empty()) == Seq::<u8>::empty()
+{
+    reveal_with_fuel(ser_fields_from, 2);
+}
+/// the 13 fields of rdp_infos serialize to TS_INFO_PACKET
+pub proof fn lemma_info_packet(f: Seq<(Seq<char>, MV)>, d: Seq<char>, u: Seq<char>, p: Seq<char>, al: bool)
+    requires f.len() == 13,
+        f[0].1 == MV::U32(0, true), f[1].1 == MV::U32(info_flags(al), true),
+        f[2].1 == MV::U16(utf16le(d).len() as u16, true), f[3].1 == MV::U16(utf16le(u).len() as u16, true), f[4].1 == MV::U16(utf16le(p).len() as u16, true),
+        f[5].1 == MV::U16(0, true), f[6].1 == MV::U16(0, true),
+        f[7].1 == MV::Bytes(zstr(d)), f[8].1 == MV::Bytes(zstr(u)), f[9].1 == MV::Bytes(zstr(p)),
+        f[10].1 == MV::Bytes(seq![0u8, 0u8]), f[11].1 == MV::Bytes(seq![0u8, 0u8]), f[12].1 is Comp,
+    ensures ser(MV::Comp(f)) =~= info_packet(d, u, p, al, ser(f[12].1))
+{
+    lemma_ser_field(f, 0); lemma_ser_field(f, 1); lemma_ser_field(f, 2); lemma_ser_field(f, 3); lemma_ser_field(f, 4); lemma_ser_field(f, 5); lemma_ser_field(f, 6);
+    lemma_ser_field(f, 7); lemma_ser_field(f, 8); lemma_ser_field(f, 9); lemma_ser_field(f, 10); lemma_ser_field(f, 11); lemma_ser_field(f, 12);
+    lemma_ser_fields_end(f);
+    reveal_with_fuel(ser, 1);
+    assert(ser(MV::Comp(f)) == ser_fields_from(f, 0, Set::empty()));
+    assert(ser(f[0].1) == le32(0)); assert(ser(f[1].1) == le32(info_flags(al)));
+    assert(ser(f[2].1) == le16(utf16le(d).len() as u16)); assert(ser(f[3].1) == le16(utf16le(u).len() as u16)); assert(ser(f[4].1) == le16(utf16le(p).len() as u16));
+    assert(ser(f[5].1) == le16(0)); assert(ser(f[6].1) == le16(0));
+    assert(ser(f[7].1) == zstr(d)); assert(ser(f[8].1) == zstr(u)); assert(ser(f[9].1) == zstr(p));
+    assert(ser(f[10].1) == seq![0u8, 0u8]); assert(ser(f[11].1) == seq![0u8, 0u8]);
+}
+""", mod="sec", name="sec_lemmas"))
+RDP_INFOS_POST = r"""proof {
+        broadcast use axiom_utf16le_len;
+        let f = c.fields();
+        let d = utf16le(domain@); let u = utf16le(username@); let p = utf16le(password@);
+        assert(domain_format@ =~= zstr(domain@));
+        assert(username_format@ =~= zstr(username@));
+        assert(password_format@ =~= zstr(password@));
+        assert((1u32 | 0x10u32 | 0x40u32 | 0x10000u32 | 2u32 | 0x100u32 | 8u32) == (1u32 | 2u32 | 0x10u32 | 0x40u32 | 0x100u32 | 0x10000u32 | 8u32)) by(bit_vector);
+        assert((1u32 | 0x10u32 | 0x40u32 | 0x10000u32 | 2u32 | 0x100u32 | 0u32) == (1u32 | 2u32 | 0x10u32 | 0x40u32 | 0x100u32 | 0x10000u32 | 0u32)) by(bit_vector);
+        assert((1u32 | 2u32 | 0x10u32 | 0x40u32 | 0x100u32 | 0x10000u32 | 8u32) & 0x8 != 0) by(bit_vector);
+        assert((1u32 | 2u32 | 0x10u32 | 0x40u32 | 0x100u32 | 0x10000u32 | 0u32) & 0x8 == 0) by(bit_vector);
+        assert(f[0] == ("codePage"@, MV::U32(0, true)));
+        assert(f[1] == ("flag"@, MV::U32(info_flags(auto_logon), true)));
+        assert(f[2] == ("cbDomain"@, MV::U16(d.len() as u16, true)));
+        assert(f[3] == ("cbUserName"@, MV::U16(u.len() as u16, true)));
+        assert(f[4] == ("cbPassword"@, MV::U16(p.len() as u16, true)));
+        assert(f[5] == ("cbAlternateShell"@, MV::U16(0, true)));
+        assert(f[6] == ("cbWorkingDir"@, MV::U16(0, true)));
+        assert(f[7] == ("domain"@, MV::Bytes(zstr(domain@))));
+        assert(f[8] == ("userName"@, MV::Bytes(zstr(username@))));
+        assert(f[9] == ("password"@, MV::Bytes(zstr(password@))));
+        assert(f[10].1 is Bytes && f[10].1->Bytes_0 =~= seq![0u8, 0u8]);
+        assert(f[11].1 is Bytes && f[11].1->Bytes_0 =~= seq![0u8, 0u8]);
+        assert(f[12].1 is Comp);
+        let ext = ser(f[12].1);
+        assert(!is_extended_info ==> ext.len() == 0) by { reveal_with_fuel(ser, 2); reveal_with_fuel(ser_fields_from, 2); }
+        assert(ext.len() == (if is_extended_info { extended_info_len() } else { 0 }));
+        lemma_info_packet(f, domain@, username@, password@, auto_logon);
+        assert(info_packet(domain@, username@, password@, auto_logon, ext) =~= ser(c.mv()));
+     }"""
 def SF(name, **kw):
     A(Fn(SEC, name, mod="sec", **kw))
-SF("rdp_extended_infos", ret="c", props=["C04"], ensures=shape_clauses(SEC, "rdp_extended_infos", res="c") + [("C04", "size", "ser(c.mv()).len() == extended_info_len()")])
-SF("rdp_infos", ret="c", props=["C04", "C17"],
+SF("rdp_extended_infos", ret="c", props=["C04"], fuel=10,
+   closures={1: dict(params="x: &U16", ret="-> (r: MessageOption)", spec="ensures r.ov() == OV::Size(\"clientAddress\"@, (x.val() as usize + 2) as usize)")},
+   ensures=shape_clauses(SEC, "rdp_extended_infos", res="c") + [("C04", "size", "ser(c.mv()).len() == extended_info_len()")])
+SF("rdp_infos", ret="c", props=["C04", "C17"], post=RDP_INFOS_POST,
    requires=["domain@.len() <= 512 && username@.len() <= 512 && password@.len() <= 512"],
    ensures=shape_clauses(SEC, "rdp_infos", res="c") + [
        ("C04,C17", "ts-info-packet", "exists|ext: Seq<u8>| ext.len() == (if is_extended_info { extended_info_len() } else { 0 }) && #[trigger] info_packet(domain@, username@, password@, auto_logon, ext) =~= ser(c.mv())"),
+       ("C04", "counts-exclude-terminator-and-do-not-truncate", "c.fields()[2].1->U16_0 as int == utf16le(domain@).len() && c.fields()[3].1->U16_0 as int == utf16le(username@).len() && c.fields()[4].1->U16_0 as int == utf16le(password@).len()"
+               " && c.fields()[7].1 == MV::Bytes(zstr(domain@)) && c.fields()[8].1 == MV::Bytes(zstr(username@)) && c.fields()[9].1 == MV::Bytes(zstr(password@))"),
        ("C17", "auto-logon-flag-iff-requested", "c.fields()[1].1 == MV::U32(info_flags(auto_logon), true) && (info_flags(auto_logon) & 0x8 != 0 <==> auto_logon)")])
 SF("security_header", ret="c", props=["C05"], ensures=shape_clauses(SEC, "security_header", res="c"))
-SF("connect", props=["C17", "C02", "C03", "C05"], keys=True,
+SF("connect", props=["C17", "C02", "C03", "C05"], keys=True, fuel=5,
+   pre="let ghost w0 = mcs.written(); let ghost uid = mcs.uid()->Some_0; let ghost gl = mcs.chans()[\"global\"@]; let ghost v5 = mcs.v5plus();",
+   hints=[(r"let \(_channel_name, payload\) = mcs\.read\(\)\?;", 1, """let ghost w1 = mcs.written();
+    proof {
+        broadcast use axiom_utf16le_len;
+        assert(exists|ext: Seq<u8>| ext.len() == (if v5 { extended_info_len() } else { 0 }) && w1 =~= w0 + mcs::mcs_frame(uid, gl, client_info_pdu(#[trigger] info_packet(domain@, username@, password@, auto_logon, ext))));
+    }
+    let ghost ext = choose|ext: Seq<u8>| ext.len() == (if v5 { extended_info_len() } else { 0 }) && w1 =~= w0 + mcs::mcs_frame(uid, gl, client_info_pdu(#[trigger] info_packet(domain@, username@, password@, auto_logon, ext)));
+""", "before"),
+          (r"Ok\(\(\)\)", 1, """proof {
+        assert(mcs.written() == w1);
+        assert(w0 + mcs::mcs_frame(uid, gl, client_info_pdu(info_packet(domain@, username@, password@, auto_logon, ext))) =~= mcs.written());
+        assert(is_prefix(w0 + mcs::mcs_frame(uid, gl, client_info_pdu(info_packet(domain@, username@, password@, auto_logon, ext))), mcs.written()));
+    }""", "before")],
    requires=["old(mcs).connected()", "old(mcs).server_known()", ("old(mcs).tls()"), "domain@.len() <= 512 && username@.len() <= 512 && password@.len() <= 512"],
    ensures=[("C17,C03", "client-info-first-with-exactly-these-credentials", """r is Ok ==> exists|ext: Seq<u8>| ext.len() == (if old(mcs).v5plus() { extended_info_len() } else { 0 })
                  && #[trigger] is_prefix(old(mcs).written() + mcs::mcs_frame(old(mcs).uid()->Some_0, old(mcs).chans()["global"@], client_info_pdu(info_packet(domain@, username@, password@, auto_logon, ext))), final(mcs).written())"""),
